@@ -34,7 +34,7 @@ Universes == {MkU(c, r, f, h, e) : c \in CandOrders, r \in Ranks, f \in Favs, h 
 QMatch == {1, 2}
 QNon   == {1}
 QReqs  == {<<1>>, <<1, 3>>, <<4>>}
-QDepS  == {1}
+QDepS  == {1, 2}    \* solvable 2 has Unknown dependencies
 
 VARIABLE started
 \* a universe of the family is identified by its parameters
